@@ -10,7 +10,7 @@ EXPLANATION = (
     "site passes the call to reformat_text, reads precede it, decoding is strict; (W3) the input path is a destination only "
     "under `inplace`, the output path only otherwise, stdout only when not in place; (W4) the backup suffix evaluates to "
     "'.orig' under nobackup=False (truth-table evaluation of the IfExp); (W5) the with-body is the single write, with no "
-    "return/break/continue/try that could commit a partial file; (W7) no raise is reachable from a write site; thorough "
+    "return/break/continue/try that could commit a partial file; (W7) no raise is reachable from a write site; (W8) after formatting, every normal path of reformat_file writes the result; thorough "
     "adds (W6) the dependency contract read from the installed strif source: sibling temp file, rename after the yield on "
     "every normal path, not in a finally, backup before rename. POSIX rename atomicity is assumed; durability (fsync) is not "
     "part of the statement."
